@@ -51,6 +51,7 @@ def transparent(rec, singles):
         return False
     n = len(mir.get("locals") or [])
     saw_field = False
+    projects = builds = False
     for st in blocks[0]["stmts"]:
         if st["k"] in ("storage_live", "storage_dead", "nop", "fake_read"):
             continue
@@ -61,14 +62,17 @@ def transparent(rec, singles):
             if not _place_ok(rv["place"], n):
                 return False
             saw_field |= any(isinstance(e, dict) for e in rv["place"].get("p") or [])
+            projects |= any(isinstance(e, dict) for e in rv["place"].get("p") or [])
         elif rv["k"] == "use":
             if not _operand_ok(rv["op"], n):
                 return False
             saw_field |= any(isinstance(e, dict) for e in rv["op"]["place"].get("p") or [])
+            projects |= any(isinstance(e, dict) for e in rv["op"]["place"].get("p") or [])
         elif rv["k"] == "aggregate":
             if rv.get("agg") != "adt" or rv.get("adt") not in singles or len(rv.get("ops") or []) != 1 or not _operand_ok(rv["ops"][0], n):
                 return False
             saw_field = True
+            builds = True
         else:
             return False
     # the one parameter (or the value built) must be of a single-field struct: projections `.0` above are then the whole content
@@ -84,7 +88,9 @@ def transparent(rec, singles):
             if ty.startswith("mut "):
                 ty = ty[4:].strip()
         return ty
-    return saw_field and len(ins) == 1 and (head(ins[0]) in singles or head(out) in singles)
+    if not saw_field or len(ins) != 1 or (projects and builds):
+        return False
+    return head(ins[0]) in singles if projects else head(out) in singles
 
 
 def _rename_place(pl, base, ret):
